@@ -582,3 +582,100 @@ Contract(
     note="the body of WorkerPool.place_task for the calls the simulator and the policies make (an execution strategy is given, no pool-level scheduler is configured): verified in terms of the proved Worker.can_accomodate_strategy / Worker.place_task; the two branches excluded by the precondition (strategy None: first strategy of the task that fits; a pool-level scheduler) are NOT verified",
     props=("C01", "C04", "C13", "C10"),
 )
+
+
+# =================================================================================================
+# get_placed_tasks : the tasks resident on a pool / on the cluster (used by the main loop and the frontier, C03 / C05)
+# =================================================================================================
+from contracts.c_simulator import WPS, PoolMap  # noqa: E402
+
+
+def pools_dict(h, wps):
+    return h.rd(wps, WPS, "_worker_pools")[1]
+
+
+def pool_k(h, wps, k):
+    d = pools_dict(h, wps)
+    return h.d_val(PoolMap, d, h.d_key(PoolMap, d, k))
+
+
+Contract(
+    "workers.workers.WorkerPool.get_placed_tasks",
+    params={"self": S_.WorkerPool.ty},
+    ret=TaskList,
+    ensures=lambda c: {
+        "pool_placed.exactly_the_mapped_tasks": z3.ForAll(
+            [z3.Int("gp_t")], c.post.l_mem(TaskList, c.res, z3.Int("gp_t")) == c.pre.d_dom(PoolPlaced, pool_map(c.pre, c.arg("self")), z3.Int("gp_t")), patterns=[c.post.l_mem(TaskList, c.res, z3.Int("gp_t"))]
+        ),
+        "pool_placed.fresh_list": c.res >= c.alloc0,
+    },
+    allocates=True,
+    props=("C03", "C05", "C01"),
+)
+
+
+def _wps_gpt_requires(c):
+    wps = c.arg("self")
+    k = z3.Int(H.fresh_name("wq_k"))
+    pk = pool_k(c.pre, wps, k)
+    n = c.pre.c_len(PoolMap, pools_dict(c.pre, wps))
+    t = z3.Int(H.fresh_name("wq_t"))
+    # (a consequence of the pool invariant and the agreement of the pool's map with its workers, stated directly: a
+    # mapped task is resident on a worker, and residents are well formed)
+    return {
+        "pools_not_none": z3.ForAll([k], z3.Implies(z3.And(0 <= k, k < n), pk != 0), patterns=[pk]),
+        "mapped_tasks_wf": z3.ForAll([k, t], z3.Implies(z3.And(0 <= k, k < n, c.pre.d_dom(PoolPlaced, pool_map(c.pre, pk), t)), wf_task(c.pre, t)), patterns=[c.pre.d_dom(PoolPlaced, pool_map(c.pre, pk), t)]),
+    }
+
+
+def _wps_gpt_inv(c, L):
+    h = c.post
+    out = L.var("placed_tasks")
+    x = z3.Int(H.fresh_name("wi_x"))
+    return {
+        "list_fresh": z3.And(out >= c.alloc0, out < c.run.cur_alloc()),
+        "members_are_old_wf_tasks": z3.ForAll([x], z3.Implies(h.l_mem(TaskList, out, x), z3.And(x > 0, x < c.alloc0, wf_task(c.pre, x))), patterns=[h.l_mem(TaskList, out, x)]),
+    }
+
+
+def _wps_gpt_mod(c):
+    fr = c.run.frames[-1].env
+    t = fr.get("placed_tasks")
+    return {c.pre.carr(TaskList, p_)[0]: [t.z] for p_ in ("len", "elem")}
+
+
+def closed_pools(c):
+    wps = c.arg("self")
+    k, t = z3.Int(H.fresh_name("cq_k")), z3.Int(H.fresh_name("cq_t"))
+    pk = pool_k(c.pre, wps, k)
+    n = c.pre.c_len(PoolMap, pools_dict(c.pre, wps))
+    return Fact(
+        "heap.closed",
+        z3.And(
+            pools_dict(c.pre, wps) < c.alloc0,
+            z3.ForAll([k], z3.Implies(z3.And(0 <= k, k < n), z3.And(pk < c.alloc0, pool_map(c.pre, pk) < c.alloc0)), patterns=[pk]),
+            z3.ForAll([k, t], z3.Implies(z3.And(0 <= k, k < n, c.pre.d_dom(PoolPlaced, pool_map(c.pre, pk), t)), z3.And(0 < t, t < c.alloc0)), patterns=[c.pre.d_dom(PoolPlaced, pool_map(c.pre, pk), t)]),
+        ),
+    )
+
+
+def _wps_gpt_ens(c):
+    from contracts.c_handlers import CONTRACTS_get_placed_tasks_text
+
+    return {"cluster_placed.abstract_contract_holds": CONTRACTS_get_placed_tasks_text(c)}
+
+
+Contract(
+    "workers.workers.WorkerPools.get_placed_tasks#body",
+    params={"self": T.Ref(WPS)},
+    ret=TaskList,
+    requires=_wps_gpt_requires,
+    loops={0: Loop(inv=_wps_gpt_inv, modifies=_wps_gpt_mod)},
+    locals={"placed_tasks": TaskList},
+    ensures=_wps_gpt_ens,
+    entry_facts=lambda c: [closed_pools(c)],
+    exit_facts=lambda c: [Fact("list.index_mem", c.post.l_index_mem(TaskList, c.res))],
+    allocates=True,
+    note="the abstract contract used by the main loop (a fresh list of pre-existing, well-formed tasks) verified against the body under the pool invariant and the agreement of each pool's task map with its workers",
+    props=("C03", "C05"),
+)
